@@ -332,7 +332,7 @@ def random_case(rnd, faults):
     elif tool == "enumerate":
         par = {"start": rnd.choice([0, 1, 7, 100])}
     elif tool == "iter":
-        data = [seq([1, 1, 1, 2, 3], 10)]
+        par, data = {"sent": rnd.choice(["eq", "ident"])}, [seq([1, 1, 1, 2, 3], 10)]
     elif tool == "accumulate":
         par = {"init": b(), "fn": rnd.choice(["func", "add"])}
     elif tool == "batched":
@@ -361,7 +361,8 @@ def random_case(rnd, faults):
         case["nnext"] = rnd.randint(0, 12)
         case["closes"] = True
     elif rnd.random() < 0.5:
-        case["nnext"], case["closes"] = 10 ** 6, False
+        # "until exhaustion": no finite tool yields more than its inputs hold (+ initial, + the ending step)
+        case["nnext"], case["closes"] = total + len(data) + 4, False
     else:
         case["nnext"], case["closes"] = rnd.randint(0, total + 2), True
     if faults:
